@@ -139,6 +139,7 @@ func vLeafDateTimeRaw() {
 		row:  func(c Column, i int) DateTime { return c.(*ColDateTime).Data[i] },
 		eq:   func(a, b DateTime) bool { return a == b },
 		auto: func(c Column) (Column, bool) { _, ok := c.(*ColDateTime); return c, ok },
+		emit: func(v DateTime) { verifEmitU64("row", uint64(v)) },
 	})
 }
 
@@ -152,6 +153,7 @@ func vLeafDateTime64Raw() {
 		row:  func(c Column, i int) DateTime64 { return c.(*ColDateTime64).Data[i] },
 		eq:   func(a, b DateTime64) bool { return a == b },
 		auto: func(c Column) (Column, bool) { _, ok := c.(*ColDateTime64); return c, ok },
+		emit: func(v DateTime64) { verifEmitU64("row", uint64(v)) },
 	})
 }
 
